@@ -132,7 +132,20 @@ def _hoist_temps(tree):
     return count
 
 
-TWINS = {"rename-locals": lambda t: _rename_locals(t, every=True), "if-swap": _if_swap, "inert": _inert, "hoist-temps": _hoist_temps}
+def _cmp_flip(tree):
+    """a < b -> b > a (all four orderings), a == b -> b == a, a != b -> b != a for single comparisons."""
+    flip = {ast.Lt: ast.Gt, ast.Gt: ast.Lt, ast.LtE: ast.GtE, ast.GtE: ast.LtE, ast.Eq: ast.Eq, ast.NotEq: ast.NotEq}
+    count = 0
+    for n in ast.walk(tree):
+        if isinstance(n, ast.FunctionDef) and n.decorator_list:
+            continue
+        if isinstance(n, ast.Compare) and len(n.ops) == 1 and type(n.ops[0]) in flip:
+            n.left, n.comparators[0], n.ops[0] = n.comparators[0], n.left, flip[type(n.ops[0])]()
+            count += 1
+    return count
+
+
+TWINS = {"cmp-flip": _cmp_flip, "rename-locals": lambda t: _rename_locals(t, every=True), "if-swap": _if_swap, "inert": _inert, "hoist-temps": _hoist_temps}
 
 
 def run_for(prop, rule, model):
